@@ -395,6 +395,8 @@ structure JSt where
   pm : PureMon := {}
   tm : TextMon := {}
   lastObs : List (Nat × List OEntry) := []
+  lastSnap : List (Nat × String) := []
+  snapPairs : Nat := 0
   sliceSpecs : List (Nat × SliceSpec) := []
   mergeSpecs : List (Nat × MergeSpec) := []
   slices : Nat := 0
@@ -506,7 +508,11 @@ def judgeCore (m : HMon) (op : Op) (o : Obs) : HMon × List (String × String) :
         | _ => rej
       -- touched entries (edges and data marker of the argument vertices) against the reference
       let rej := if o.touched ≠ eTouched then
-          rej ++ [((match op with | .add _ => "C04" | _ => "C03"), s!"entries {o.touched}, reference {eTouched}")]
+          rej ++ [((match op with | .add _ => "C04" | _ => "C03"), s!"entries {o.touched}, reference {eTouched}")] ++
+            -- a created vertex that shows edges or data yields kid/kids/data answers never written since its creation
+            (match op with
+             | .add v => if v ∉ m.prevKeys then [("C03", s!"created vertex shows {o.touched}: edges or data not written since it was created")] else []
+             | _ => [])
         else rej
       -- C04: direct
       let rej := match op with
@@ -559,7 +565,7 @@ def judgeLine2 (j : JSt) (lineNo : Nat) (opLine obsLine : String) : JSt :=
   match words opLine with
   | ["reset"] =>
     let j := j.closeHist (lineNo - 1)
-    { j with mons := #[], everAlive := [], lastObs := [], sliceSpecs := [], mergeSpecs := [], histStart := lineNo, histMark := j.stats,
+    { j with mons := #[], everAlive := [], lastObs := [], lastSnap := [], sliceSpecs := [], mergeSpecs := [], histStart := lineNo, histMark := j.stats,
              stats := { j.stats with histories := j.stats.histories + 1 } }
   | ["new", h, n, c] =>
     match parseHandle h, n.toNat?, c.toNat? with
@@ -614,7 +620,7 @@ def judgeLine2 (j : JSt) (lineNo : Nat) (opLine obsLine : String) : JSt :=
                   may := srcE.map (fun (x, l, t) => (x, showLabelTok l, t)) }
               let cyc := kept.any (fun x => (m.r.edg x).any (fun e => e.2 ∈ kept ∧ e.2 ≤ x))
               let j := { j with slicesJudged := j.slicesJudged + 1, sliceWithCycle := j.sliceWithCycle + (if cyc then 1 else 0) }
-              let j := (j.setMon a { m with origin := "C13" }).setMon b
+              let j := (j.setMon a { m with origin := if m.origin = "" then "C13" else m.origin }).setMon b
                 { n := m.n, cap := m.cap, r := rb, judged := valid, prevKeys := o.keys, origin := "C13" }
               let j := { j with sliceSpecs := (b, spec) :: j.sliceSpecs.filter (·.1 ≠ b) }
               if o.status ≠ "ok" then j.reject "C13" lineNo s!"slice answered '{obsLine}'"
@@ -694,7 +700,10 @@ def judgeLine2 (j : JSt) (lineNo : Nat) (opLine obsLine : String) : JSt :=
       let j := { j with sameChecks := j.sameChecks + 1 }
       match j.lastObs.find? (·.1 = a), j.lastObs.find? (·.1 = b) with
       | some (_, x), some (_, y) =>
-        if x == y then j else j.reject "C14" lineNo "the graph after deploy_to() differs from the graph after the same direct calls"
+        let prop := match j.getMon a with
+          | some m => if m.origin = "C13" ∨ m.origin = "C10" then "C10" else "C14"
+          | none => "C14"
+        if x == y then j else j.reject prop lineNo (if prop = "C14" then "the graph after deploy_to() differs from the graph after the same direct calls" else "the same query on the original and on the clone gives different graphs")
       | _, _ => j.reject "C14" lineNo "one of the two graphs could not be observed"
     | _, _ => j
   | ["script", a, t] =>
@@ -736,7 +745,21 @@ def judgeLine2 (j : JSt) (lineNo : Nat) (opLine obsLine : String) : JSt :=
             j.setMon a { m with r := r', prevKeys := o.keys, origin := "C14", hist := hist', judged := wellFormed }
       | none => j
     | _, _ => j
-  | ["snap", _] => j
+  | ["snap", a] =>
+    match parseHandle a with
+    | some h => { j with lastSnap := (h, obsLine) :: j.lastSnap.filter (·.1 ≠ h) }
+    | none => j
+  | ["samesnap", a, b] =>
+    -- the complete internal state of an original and its clone (hook), allocator position included
+    match parseHandle a, parseHandle b with
+    | some a, some b =>
+      match j.lastSnap.find? (·.1 = a), j.lastSnap.find? (·.1 = b) with
+      | some (_, x), some (_, y) =>
+        if x = y then { j with snapPairs := j.snapPairs + 1 }
+        else if ¬ (x.startsWith "ok" ∧ y.startsWith "ok") then j
+        else j.reject "C10" lineNo "the internal state of the clone differs from the original's (vertex slots, member lists, counters or allocator position)"
+      | _, _ => j
+    | _, _ => j
   | ["save", _] => j
   | ["loadcuts", a, _] =>
     match (parseHandle a).bind j.getMon with
@@ -844,7 +867,7 @@ def PureMon.json (p : PureMon) : String :=
   "{" ++ s!"\"hex_lines\":{p.hexLines},\"concat_lines\":{p.concatLines},\"concat_law_failures\":{p.concatDefect},\"label_lines\":{p.labelLines},\"legal_texts\":{p.legalTexts},\"distinct_labels\":{p.seen.length},\"panics_agreed_with_slice\":{p.panicsAgreed}" ++ "}"
 
 def JSt.algoJson (j : JSt) : String :=
-  "{" ++ s!"\"slices\":{j.slices},\"slices_judged\":{j.slicesJudged},\"slices_with_cycle_or_back_edge\":{j.sliceWithCycle},\"merges\":{j.merges},\"merges_judged\":{j.mergesJudged},\"merges_of_two_trees\":{j.mergesOfTrees},\"merges_with_unreachable_vertices\":{j.mergesErr},\"scripts\":{j.scripts},\"scripts_judged\":{j.scriptsJudged},\"script_commands_applied\":{j.scriptCommands},\"scripts_malformed\":{j.scriptsMalformed},\"script_vs_direct_comparisons\":{j.sameChecks}" ++ "}"
+  "{" ++ s!"\"slices\":{j.slices},\"slices_judged\":{j.slicesJudged},\"slices_with_cycle_or_back_edge\":{j.sliceWithCycle},\"merges\":{j.merges},\"merges_judged\":{j.mergesJudged},\"merges_of_two_trees\":{j.mergesOfTrees},\"merges_with_unreachable_vertices\":{j.mergesErr},\"scripts\":{j.scripts},\"scripts_judged\":{j.scriptsJudged},\"script_commands_applied\":{j.scriptCommands},\"scripts_malformed\":{j.scriptsMalformed},\"script_vs_direct_comparisons\":{j.sameChecks},\"clone_snapshot_pairs_equal\":{j.snapPairs}" ++ "}"
 
 def TextMon.json (t : TextMon) : String :=
   "{" ++ s!"\"xml_docs\":{t.xmlDocs},\"dot_docs\":{t.dotDocs},\"debug_docs\":{t.debugDocs},\"inspect_texts\":{t.inspects},\"inspect_with_cycle_marks\":{t.cyclesSeen},\"vprint_texts\":{t.vprints},\"same_content_pairs\":{t.sameContentPairs}" ++ "}"
